@@ -236,6 +236,8 @@ class Monitor:
         self.steps = 0
         self.step_limit = step_limit
         self.exhausted = False
+        self.stop_at = None      # ask the machine to stop at this step (C17/C09)
+        self.stopped_at = None
         self.seg = None
         self.n = 0
         self.image = None
@@ -267,6 +269,9 @@ class Monitor:
                 self.prepare()
             pc = reg.pc
             self.steps += 1
+            if self.stop_at is not None and self.steps == self.stop_at:
+                self.stopped_at = pc
+                m.stop()         # as ScriptJob.request_stop() does
             if self.steps > self.step_limit:
                 self.exhausted = True
                 m.stop()
